@@ -56,3 +56,53 @@ CHECKS["C17"] = dict(level="model_checking", design_ref="DESIGN.md section 5 C17
           "the hierarchy: nodes, nested clusters, solid/dashed edges to resolved headers, label contents."))
 for _p in ("C01", "C02", "C03", "C04", "C05", "C06", "C13", "C14", "C16", "C17"):
     ENGINES[0]["serves_properties"].append(_p)
+FIX_COMMITS += ["a408d5d", "4af2cd3", "a837463", "94bbe43", "e86b72a", "b60ae27", "c0f1ca4"]
+_S2_NOTE = ("programs of the bounded grammar S2 only (compound statements <= 2, nesting <= 2, expression depth <= 2 in quick); integer arguments in stated ranges, external-call "
+            "results arbitrary integers, unwinding cap 8 external calls; known findings D10-D12 (evaluation order of nested and/or, for-target after an empty iterable) are "
+            "listed in known_findings.json with structural signatures")
+CHECKS["C07"] = dict(level="translation_validation", design_ref="DESIGN.md section 5 C07, section 3 S2", note=_S2_NOTE,
+    technique="symbolic execution of original and regenerated function under one path condition (z3); per-path solver query result_orig != result_regen must be unsat; solver-enumerated program grammar",
+    text=("Every program of the bounded grammar (control skeletons with external-call tests, argument tests incl. not / attribute / subscript, every expression form in every "
+          "test/value position, for-target programs) goes through AST2SCFG, restructure, SCFG2AST, unparse, compile; the original and the regenerated function are then BOTH run "
+          "symbolically on the same symbolic arguments and external-call results. Per path the solver refutes a different result; exception types and external-call logs "
+          "(sites and argument terms) must agree. Any pipeline exception other than NotImplementedError is a violation."))
+CHECKS["C08"] = dict(level="translation_validation", design_ref="DESIGN.md section 5 C08", note=_S2_NOTE + "; the block interpreter is part of the harness (vf/s2.py BlockProgram) and follows the property text",
+    technique="symbolic execution of the original function next to a block interpreter over the real CFG (z3 equivalence query per path) + static statement census",
+    text=("Same program space; the CFG built by AST2SCFGTransformer (pruned and unpruned) is interpreted block by block next to the original function on symbolic arguments and "
+          "external-call results: result (solver query), exception type and call order must agree on every path; a static census checks that each reachable statement sits in "
+          "exactly one block and that pruning removed only unreachable blocks, no-ops and empty blocks."))
+CHECKS["C09"] = dict(level="model_checking", design_ref="DESIGN.md section 5 C09, section 3 S3",
+    note="CPython 3.12 only (3.11 has no repo dependencies installed); no exception tables / generators; ground truth from dis and opcode of the running interpreter",
+    technique="bounded symbolic execution of the real bytecode front end with z3 (solver-enumerated instruction streams: opcode class and jump target variables, validity as a formula) + compiled grammar programs",
+    text=("Every instruction stream of <= 4 instructions (5-6 in thorough) over every jump/return opcode of the running interpreter and non-jump opcodes with 0/1/4 inline cache "
+          "entries, with every direction-respecting target pattern, plus every compiled program of the S2 grammar: blocks must tile the code, contain no inner jump target or "
+          "jump, and have exactly the successors dis/opcode prescribe (fall-through first); building never fails."))
+CHECKS["C10"] = dict(level="translation_validation", design_ref="DESIGN.md section 5 C10", note=_S2_NOTE + "; refusals (NotImplementedError) are counted, not censused; finding D13 (builtins iter/next) listed",
+    technique="solver-enumerated programs and closed CFGs with AST payloads; static census of the generated ast.FunctionDef by node identity",
+    text=("For every S2 program accepted by the pipeline and, independently, every restructured closed CFG (N <= 4) with AST payloads: each statement object of each original block "
+          "occurs exactly once in the output tree, the multiset of control-variable assignments equals that of the SyntheticAssignment blocks, each branching test occurs once as an "
+          "if-condition, latch and branch tests are all present, output unparses and compiles, introduced names are reserved ones."))
+CHECKS["C11"] = dict(level="model_checking", design_ref="DESIGN.md section 5 C11", note="supported set taken from the property text and the dispatcher; statement classes without a template are reported as not covered",
+    technique="finite z3-enumerated case space (statement class x position x depth x input form) executed on the real entry points; exhausted",
+    text=("Every ast.stmt subclass of the running interpreter outside the supported set (and a nested def) at 9 structural positions x 2 depths x {source string, AST list}, plus 12 "
+          "non-function inputs: AST2SCFG must raise NotImplementedError and nothing else."))
+CHECKS["C12"] = dict(level="model_checking", design_ref="DESIGN.md section 5 C12, 2.3",
+    note="hash seed modelled as iteration order of string sets via an import hook over /repo's source; single-event perturbations + global reversal; divergences confirmed with real PYTHONHASHSEED values before being reported",
+    technique="symbolic schedule: every dynamic set-iteration event of the real code is a decision point (import-hook rewriting), all single-event perturbations explored per solver-enumerated input; confirmation by real hash seeds",
+    text=("For every closed CFG with <= 4 blocks (N=5 family in thorough), S2 programs through the source pipeline and compiled functions through the bytecode pipeline: the result "
+          "under every single-event permutation of set iteration order and under global reversal must equal the ascending baseline in a dump sensitive to names and dict order."))
+CHECKS["C15"] = dict(level="model_checking", design_ref="DESIGN.md section 5 C15", note=_S1_NOTE + "; AST-payload graphs are outside the claim (no dictionary form)",
+    technique=_S1_TECH,
+    text=("Every closed CFG with <= 4 blocks (N=5 in thorough) x {plain, bytecode payload} x stage prefix {none, closed, loops, branches}, plus bytecode-derived graphs: to_dict/"
+          "to_yaml must not raise; the re-read graph must equal the original in types, payload, successor order, back edges, tables, assignments, nesting, headers, exiting, parent; "
+          "second write equals the first; chain write-read-write-read."))
+CHECKS["C18"] = dict(level="model_checking", design_ref="DESIGN.md section 5 C18, 2.2",
+    note="(a) kind strings <= 10 chars, indices <= 999; str(int) modelled by true facts (regular language + injectivity); translator validated against the real methods on every run; (c) names observed by wrapping the generator methods in the harness process",
+    technique="source-to-SMT translation of NameGenerator methods (z3 strings/arrays, 12 obligations: counter step, dependence, pairwise injectivity) + bounded symbolic execution of request sequences and reload histories",
+    text=("(a) the three name methods are translated from the current source to z3 and the inductive freshness step is proved for all kinds/counters within the bound; (b) all request "
+          "sequences of length 3 (4 thorough) over adversarial kinds incl. sub-graph creation; (c) every closed CFG (N <= 4) x 5 naming schemes inside the generator's namespace x "
+          "write/read round trip before any stage: every name issued during a stage differs from all names present before it and from all names issued earlier."))
+ENGINES.append({"name": "astsmt", "path": "vf/astsmt.py", "serves_properties": ["C18"], "kind_free_text": "source-to-SMT translation (inspect + ast -> z3 strings/arrays) of loop-free leaf methods"})
+ENGINES.append({"name": "ndorder", "path": "vf/ndorder.py", "serves_properties": ["C12"], "kind_free_text": "import hook over /repo's source turning set-iteration order into a schedule"})
+for _p in ("C07", "C08", "C09", "C10", "C11", "C12", "C15", "C18"):
+    ENGINES[0]["serves_properties"].append(_p)
